@@ -671,10 +671,12 @@ def runLoad (w : World) (t : Nat) (p : Plan) : World × List String :=
         go fuel (stepLoader w t c) (i + 1) (pcName (w.pcs t) :: trace)
   go 20 w 0 []
 
-def worldJson (w : World) (keys : List SKey) (tmps : List (Ty × Nat)) : Json :=
+def worldJson (w : World) (keys : List SKey) (tmps : List (Ty × Nat)) (strays : List (Option Ty × Nat) := []) : Json :=
   Json.mkObj [
     ("cache", toJson (keys.filterMap fun k => (w.files (.cache k)).map fun c => Json.arr #[tyName k.ty, toJson k.rel, toJson c])),
-    ("tmp", toJson ((tmps.filter fun p => (w.files (.tmp p.1 p.2)).isSome).length)),
+    ("tmp", toJson ((tmps.filter fun p => (w.files (.tmp p.1 p.2)).isSome).length +
+                    (strays.filter fun p => (w.files (.foreign p.1 p.2)).isSome).length)),
+    ("dirs", toJson ([Ty.hpo, Ty.maxo, Ty.mondo].filterMap fun ty => if w.dirs ty then some (tyName ty) else none)),
     ("fetches", toJson (w.log.filterMap fun e => match e with | .fetch _ k => some (Json.arr #[tyName k.ty, toJson k.rel]) | _ => none))]
 
 /-- tag names as code-point lists -> which are production tags, and the latest -/
@@ -698,6 +700,7 @@ def storeRun (j : Json) : Except String Json := do
   let mut w := World.init remote tags
   let mut outs : Array Json := #[]
   let mut tmps : List (Ty × Nat) := []
+  let mut strays : List (Option Ty × Nat) := []
   let mut t := 0
   for opj in ops do
     let a ← opj.getArr?
@@ -718,15 +721,25 @@ def storeRun (j : Json) : Except String Json := do
         | .loaded k c => Json.mkObj [("loaded", Json.arr #[tyName k.ty, toJson k.rel, toJson c])]
         | .dead => "dead"
         | _ => "failed"
-      outs := outs.push (Json.mkObj [("result", res), ("trace", toJson trace), ("world", worldJson w keys tmps)])
+      outs := outs.push (Json.mkObj [("result", res), ("trace", toJson trace), ("world", worldJson w keys tmps strays)])
     | "clear" =>
       match a[1]?.getD Json.null with
       | .str s => w := step w (.clearTy (← tyOf s))
       | _ => w := step w .clearAll
-      outs := outs.push (Json.mkObj [("result", "ok"), ("world", worldJson w keys tmps)])
+      outs := outs.push (Json.mkObj [("result", "ok"), ("world", worldJson w keys tmps strays)])
+    | "stray" =>
+      -- ["stray", type|null, name, bytes]
+      let ty : Option Ty ← match a[1]?.getD Json.null with
+        | .str s => (tyOf s).map some
+        | _ => pure none
+      let name ← (a[2]?.getD Json.null).getNat?
+      let b ← fromJson? (α := List Nat) (a[3]?.getD Json.null)
+      strays := if strays.contains (ty, name) then strays else (ty, name) :: strays
+      w := step w (.stray ty name b)
+      outs := outs.push (Json.mkObj [("result", "ok"), ("world", worldJson w keys tmps strays)])
     | "latest" =>
       let ty ← tyOf (← (a[1]?.getD Json.null).getStr?)
-      outs := outs.push (Json.mkObj [("result", toJson (maxTag (tags ty))), ("world", worldJson w keys tmps)])
+      outs := outs.push (Json.mkObj [("result", toJson (maxTag (tags ty))), ("world", worldJson w keys tmps strays)])
     | _ => throw s!"unknown store op {k}"
   return Json.arr outs
 end C07
